@@ -60,7 +60,7 @@ inline Json cfg_to_json(const sim::Config& c) {
     j.set("strategy", c.strategy).set("sticky_p", c.sticky_p).set("pct_depth", c.pct_depth).set("len_guess", c.len_guess);
     j.set("starve_victims", c.starve_victims).set("starve_window", c.starve_window);
     j.set("spurious_rate", c.spurious_rate).set("random_signal", c.random_signal);
-    j.set("clock_jump_rate", c.clock_jump_rate).set("clock_jump_ms", (int64_t)c.clock_jump_ms);
+    j.set("clock_jump_rate", c.clock_jump_rate).set("clock_jump_ms", (int64_t)c.clock_jump_ms).set("create_fail_rate", c.create_fail_rate);
     j.set("clock_step_max_ms", c.clock_step_max_ms).set("step_cap", c.step_cap).set("post_op_points", c.post_op_points).set("atomic_points", c.atomic_points);
     return j;
 }
@@ -77,6 +77,7 @@ inline sim::Config cfg_from_json(const Json& j) {
     c.random_signal = j.has("random_signal") && j.at("random_signal").b;
     c.clock_jump_rate = j.getd("clock_jump_rate", 0);
     c.clock_jump_ms = j.get("clock_jump_ms", 0);
+    c.create_fail_rate = j.getd("create_fail_rate", 0);
     c.clock_step_max_ms = (int)j.get("clock_step_max_ms", 2);
     c.step_cap = (int)j.get("step_cap", 20000);
     c.post_op_points = !j.has("post_op_points") || j.at("post_op_points").b;
@@ -238,7 +239,7 @@ inline Outcome outcome_now(const std::string& status, const std::string& cls, co
 // ------------------------------------------------------------------------------------------------ aggregated statistics (loop mode)
 struct Agg {
     uint64_t runs = 0, nontrivial = 0, steps = 0, choice_points = 0, switches = 0, threads = 0;
-    uint64_t spurious = 0, signal_choices = 0, clock_jumps = 0, late_starts = 0, starved_steps = 0, mutex_contended = 0, cond_parks = 0, atomic_points = 0;
+    uint64_t create_failures = 0, spurious = 0, signal_choices = 0, clock_jumps = 0, late_starts = 0, starved_steps = 0, mutex_contended = 0, cond_parks = 0, atomic_points = 0;
     uint64_t runs_spurious = 0, runs_random_signal = 0, runs_clock_jump = 0;
     int64_t sim_ms = 0;
     uint64_t strat[4] = {0, 0, 0, 0};
@@ -253,7 +254,7 @@ inline void print_summary() {
     j.set("switches", a.switches).set("threads", a.threads).set("sim_ms", (int64_t)a.sim_ms);
     Json f = Json::object();
     f.set("spurious_wakeup", a.spurious).set("signal_nonfifo_target", a.signal_choices).set("clock_jump", a.clock_jumps);
-    f.set("late_thread_start", a.late_starts).set("starved_thread_steps", a.starved_steps);
+    f.set("late_thread_start", a.late_starts).set("starved_thread_steps", a.starved_steps).set("pthread_create_eagain", a.create_failures);
     j.set("faults_fired", f);
     Json fr = Json::object();
     fr.set("spurious_wakeup", a.runs_spurious).set("random_signal_target", a.runs_random_signal).set("clock_jump", a.runs_clock_jump);
@@ -351,12 +352,12 @@ inline int loop_mode() {
         run_case(program, cfg);
         auto& st = sim::stats();
         uint64_t ph = fnv(program.dump());
-        bool nontrivial = st.choice_points > 0 || st.spurious > 0 || st.clock_jumps > 0 || st.harness_nontrivial > 0;
+        bool nontrivial = st.choice_points > 0 || st.spurious > 0 || st.clock_jumps > 0 || st.harness_nontrivial > 0 || st.create_failures > 0;
         // R <idx> <program-hash> <schedule-hash> <event-hash> <steps> <nontrivial>
         printf("R %ld %s %s %s %u %d\n", idx, hex(ph).c_str(), hex(st.sched_hash).c_str(), hex(st.event_hash).c_str(), st.steps, (int)nontrivial);
         auto& a = g_agg;
         a.runs++; a.nontrivial += nontrivial; a.steps += st.steps; a.choice_points += st.choice_points; a.switches += st.switches; a.threads += st.threads;
-        a.spurious += st.spurious; a.signal_choices += st.signal_choices; a.clock_jumps += st.clock_jumps; a.late_starts += st.late_starts;
+        a.create_failures += st.create_failures; a.spurious += st.spurious; a.signal_choices += st.signal_choices; a.clock_jumps += st.clock_jumps; a.late_starts += st.late_starts;
         a.starved_steps += st.starved_steps; a.mutex_contended += st.mutex_contended; a.cond_parks += st.cond_parks; a.sim_ms += st.sim_ms; a.atomic_points += st.atomic_points;
         a.runs_spurious += cfg.spurious_rate > 0; a.runs_random_signal += cfg.random_signal; a.runs_clock_jump += cfg.clock_jump_rate > 0;
         a.strat[cfg.strategy & 3]++;
@@ -499,7 +500,7 @@ inline sim::Config replay_cfg(sim::Config c, const std::vector<sim::Decision>& s
     return c;
 }
 
-inline int default_of(char kind) { return kind == 'S' || kind == 'P' ? -1 : 0; }
+inline int default_of(char kind) { return kind == 'S' || kind == 'P' ? -1 : 0; }  // W, J, H, F: 0
 
 inline int investigate_mode() {
     auto& o = g_opts;
